@@ -258,3 +258,76 @@ Definition FOps (tpdf tcdf tpow : list (float * float)) : Ops float :=
      o_of_nat := float_of_nat;
      o_pdf := lookup tpdf; o_cdf := lookup tcdf;
      o_pow := fun x _ => lookup tpow x; o_sqrt := PrimFloat.sqrt |}.
+
+(* ------------------------------------------------------------------------ *)
+(* plumbing around the heads (no arithmetic): which predictor plays which role, and the            *)
+(* mixed-resource batch predict of the one-GP-per-rung-level surrogate                             *)
+(*   models/meanstd_acqfunc.py  MeanStdAcquisitionFunction.__init__ / compute_acq,                 *)
+(*   models/meanstd_acqfunc_impl.py _extract_active_and_secondary_metric,                          *)
+(*   gpautograd/independent/posterior_state.py IndependentGPPerResourcePosteriorState.predict      *)
+(* output names are numbered (nat); a predictor dict is an association list in dict order          *)
+(* ------------------------------------------------------------------------ *)
+Section Plumbing.
+Context {Row Out Pred : Type}.
+
+(* ---- active metric selection (MeanStdAcquisitionFunction.__init__, compute_acq) ---- *)
+Definition dkeys (d : list (nat * Pred)) : list nat := map fst d.
+Fixpoint dlookup (d : list (nat * Pred)) (k : nat) : option Pred :=
+  match d with [] => None | (k', v) :: r => if Nat.eqb k k' then Some v else dlookup r k end.
+(* predictor_output_names = [active] + names before it + names after it (dict order) *)
+Definition output_names (d : list (nat * Pred)) (active : nat) : list nat :=
+  active :: filter (fun k => negb (Nat.eqb k active)) (dkeys d).
+(* _extract_active_and_secondary_metric: the other one of exactly two outputs *)
+Definition secondary (d : list (nat * Pred)) (active : nat) : option nat :=
+  match output_names d active with
+  | [n0; n1] => Some (if Nat.eqb n0 active then n1 else n0)
+  | _ => None
+  end.
+(* what the head receives: output_to_preds[active], output_to_preds[secondary], where
+   output_to_preds = dict(zip(predictor_output_names, [output_to_predictions[name] for name in predictor_output_names])) *)
+Definition head_roles (d : list (nat * Pred)) (active : nat) : option (Pred * Pred) :=
+  match secondary d active with
+  | Some s => match dlookup d active, dlookup d s with
+              | Some pa, Some ps => Some (pa, ps)
+              | _, _ => None
+              end
+  | None => None
+  end.
+
+(* ---- IndependentGPPerResourcePosteriorState.predict, mixed-resource branch ---- *)
+(* consecutive rows with equal resource form one group (change_pos) *)
+Fixpoint group_runs (l : list (nat * Row)) : list (nat * list Row) :=
+  match l with
+  | [] => []
+  | (r, x) :: t =>
+      match group_runs t with
+      | (r', xs) :: g => if Nat.eqb r r' then (r, x :: xs) :: g else (r, [x]) :: (r', xs) :: g
+      | [] => [(r, [x])]
+      end
+  end.
+Fixpoint set_nth_nat (l : list nat) (i v : nat) : list nat :=
+  match l, i with
+  | [], _ => []
+  | _ :: r, O => v :: r
+  | y :: r, S k => y :: set_nth_nat r k v
+  end.
+(* reverse_ind = np.empty_like(ind); reverse_ind[ind] = np.arange(num_rows) *)
+Definition reverse_ind (ind : list nat) : list nat :=
+  fold_left (fun rev p => set_nth_nat rev (fst p) (snd p)) (combine ind (seq 0 (length ind))) (repeat 0 (length ind)).
+(* [ind] = np.argsort(resources) (any permutation the sort returns); [sp r batch] = self._states[r].predict(batch) *)
+Definition mixed_predict (sp : nat -> list Row -> list Out) (ind : list nat) (rows : list (nat * Row))
+           (d0 : nat * Row) (o0 : Out) : list Out :=
+  let sorted := map (fun i => nth i rows d0) ind in
+  let conc := flat_map (fun g => sp (fst g) (snd g)) (group_runs sorted) in
+  map (fun j => nth j conc o0) (reverse_ind ind).
+End Plumbing.
+
+
+(* predict: one branch when all rows share the resource, the sorting branch otherwise *)
+Definition all_same (l : list nat) : bool :=
+  match l with [] => true | r :: t => forallb (Nat.eqb r) t end.
+Definition indep_predict {Row Out : Type} (sp : nat -> list Row -> list Out) (ind : list nat)
+           (rows : list (nat * Row)) (d0 : nat * Row) (o0 : Out) : list Out :=
+  if all_same (map fst rows)
+  then match rows with (r, _) :: _ => sp r (map snd rows) | [] => [] end
+  else mixed_predict sp ind rows d0 o0.
